@@ -1,4 +1,4 @@
-package cs
+package PKGNAME
 
 // C06 harnesses, R1CS side: computeTerm / accumulateInto / divByCoeff / solveR1C
 // of the per-field solver (generated copies: run on every constraint/<field> package).
@@ -15,22 +15,6 @@ import (
 	"github.com/consensys/gnark/constraint"
 	fr "FRPKG"
 )
-
-func verifNondetU32(name string) uint32       { return 0 }
-func verifNondetBool(name string) bool        { return false }
-func verifNondetFr(name string) fr.Element    { return fr.Element{} }
-func verifAssume(b bool)                      {}
-func verifAssert(b bool, msg string)          {}
-func verifReach(label string)                 {}
-func verifAnd(a, b bool) bool                 { return a && b }
-func verifOr(a, b bool) bool                  { return a || b }
-func verifImplies(a, b bool) bool             { return !a || b }
-func verifB2I(b bool) int {
-	if b {
-		return 1
-	}
-	return 0
-}
 
 const verifNbWires = 3
 const verifNbCoeffs = 7
